@@ -1,0 +1,213 @@
+// Copyright (c) Microsoft Corporation
+// SPDX-License-Identifier: MIT
+
+//! Verification hooks, compiled only with `--cfg azure_guestproxyagent_verif`.
+//! Nothing in here is part of the product: it provides a stand-in for the kernel audit map (the real one
+//! needs a loaded eBPF object), an ndjson trace sink with one global sequence number, schedule gates that a
+//! test controller can use to park a task at a named point, and a fault switch for the rules lookup.
+
+pub mod trace {
+    use once_cell::sync::Lazy;
+    use std::io::Write;
+    use std::sync::Mutex;
+
+    struct Sink {
+        seq: u64,
+        file: Option<std::fs::File>,
+    }
+    static SINK: Lazy<Mutex<Sink>> = Lazy::new(|| Mutex::new(Sink { seq: 0, file: None }));
+
+    /// Direct the trace to `path` (truncates). Without a file `emit` only advances the sequence number.
+    pub fn set_file(path: &str) {
+        let mut s = SINK.lock().unwrap();
+        s.file = std::fs::File::create(path).ok();
+    }
+
+    /// Append one event; `seq` is assigned under the sink's mutex, so the file order is the emission order.
+    pub fn emit(mut event: serde_json::Value) -> u64 {
+        let mut s = SINK.lock().unwrap();
+        s.seq += 1;
+        let seq = s.seq;
+        if let Some(obj) = event.as_object_mut() {
+            obj.insert("seq".to_string(), serde_json::json!(seq));
+        }
+        if let Some(f) = s.file.as_mut() {
+            let _ = writeln!(f, "{}", event);
+        }
+        seq
+    }
+
+    pub fn flush() {
+        let mut s = SINK.lock().unwrap();
+        if let Some(f) = s.file.as_mut() {
+            let _ = f.flush();
+        }
+    }
+}
+
+pub mod audit {
+    //! Process-global stand-in for the kernel's audit map (source port -> record).
+    use crate::common::error::{BpfErrorType, Error};
+    use crate::common::result::Result;
+    use crate::redirector::AuditEntry;
+    use once_cell::sync::Lazy;
+    use std::collections::HashMap;
+    use std::sync::atomic::{AtomicBool, Ordering};
+    use std::sync::Mutex;
+
+    #[derive(Clone, Copy)]
+    pub struct Record {
+        pub logon_id: u64,
+        pub process_id: u32,
+        pub is_admin: i32,
+        pub destination_ipv4: u32, // network byte order
+        pub destination_port: u16, // network byte order
+    }
+
+    static ENABLED: AtomicBool = AtomicBool::new(false);
+    static MAP: Lazy<Mutex<HashMap<u16, Record>>> = Lazy::new(|| Mutex::new(HashMap::new()));
+
+    pub fn enable() {
+        ENABLED.store(true, Ordering::SeqCst);
+    }
+
+    pub fn enabled() -> bool {
+        ENABLED.load(Ordering::SeqCst)
+    }
+
+    /// What the kernel hook does at tcp_connect: publish the record under the local source port.
+    pub fn inject(source_port: u16, record: Record) {
+        let mut m = MAP.lock().unwrap();
+        m.insert(source_port, record);
+        super::trace::emit(serde_json::json!({"e": "KernelRecord", "port": source_port,
+            "uid": record.logon_id, "pid": record.process_id, "admin": record.is_admin,
+            "dip": record.destination_ipv4, "dport": record.destination_port}));
+    }
+
+    pub fn contains(source_port: u16) -> bool {
+        MAP.lock().unwrap().contains_key(&source_port)
+    }
+
+    pub fn len() -> usize {
+        MAP.lock().unwrap().len()
+    }
+
+    /// None: stand-in disabled, the caller continues with the real map.
+    pub fn lookup(source_port: u16) -> Option<Result<AuditEntry>> {
+        if !enabled() {
+            return None;
+        }
+        let m = MAP.lock().unwrap();
+        let hit = m.get(&source_port).copied();
+        super::trace::emit(serde_json::json!({"e": "AuditLookup", "port": source_port, "hit": hit.is_some()}));
+        Some(match hit {
+            Some(r) => Ok(AuditEntry {
+                logon_id: r.logon_id,
+                process_id: r.process_id,
+                is_admin: r.is_admin,
+                destination_ipv4: r.destination_ipv4,
+                destination_port: r.destination_port,
+            }),
+            None => Err(Error::Bpf(BpfErrorType::MapLookupElem(
+                source_port.to_string(),
+                "verif stand-in: no record".to_string(),
+            ))),
+        })
+    }
+
+    pub fn remove(source_port: u16) -> Option<Result<()>> {
+        if !enabled() {
+            return None;
+        }
+        let mut m = MAP.lock().unwrap();
+        let hit = m.remove(&source_port).is_some();
+        super::trace::emit(serde_json::json!({"e": "AuditRemove", "port": source_port, "hit": hit}));
+        Some(Ok(()))
+    }
+}
+
+pub mod sched {
+    //! Schedule gates. `point(label)` is a no-op unless a controller armed `label`; then the calling task is
+    //! parked (after the first `skip` arrivals) until the controller releases it.
+    use once_cell::sync::Lazy;
+    use std::collections::HashMap;
+    use std::sync::Mutex;
+
+    #[derive(Default)]
+    struct Gate {
+        skip: usize,
+        arrived: usize,
+        released: usize,
+    }
+    static GATES: Lazy<Mutex<HashMap<String, Gate>>> = Lazy::new(|| Mutex::new(HashMap::new()));
+
+    pub fn arm(label: &str, skip: usize) {
+        GATES.lock().unwrap().insert(
+            label.to_string(),
+            Gate {
+                skip,
+                arrived: 0,
+                released: 0,
+            },
+        );
+    }
+
+    pub fn disarm(label: &str) {
+        GATES.lock().unwrap().remove(label);
+    }
+
+    /// number of tasks that reached the gate so far (including those let through by `skip`)
+    pub fn arrived(label: &str) -> usize {
+        GATES.lock().unwrap().get(label).map(|g| g.arrived).unwrap_or(0)
+    }
+
+    /// let one more parked task continue
+    pub fn release(label: &str) {
+        if let Some(g) = GATES.lock().unwrap().get_mut(label) {
+            g.released += 1;
+        }
+    }
+
+    pub async fn point(label: &str) {
+        let ticket = {
+            let mut gates = GATES.lock().unwrap();
+            match gates.get_mut(label) {
+                None => return,
+                Some(g) => {
+                    g.arrived += 1;
+                    if g.arrived <= g.skip {
+                        return;
+                    }
+                    g.arrived - g.skip
+                }
+            }
+        };
+        loop {
+            {
+                let gates = GATES.lock().unwrap();
+                match gates.get(label) {
+                    None => return,
+                    Some(g) => {
+                        if g.released >= ticket {
+                            return;
+                        }
+                    }
+                }
+            }
+            tokio::time::sleep(std::time::Duration::from_micros(200)).await;
+        }
+    }
+}
+
+pub mod fault {
+    use std::sync::atomic::{AtomicBool, Ordering};
+    static RULES_LOOKUP_FAILS: AtomicBool = AtomicBool::new(false);
+
+    pub fn set_rules_lookup_fails(v: bool) {
+        RULES_LOOKUP_FAILS.store(v, Ordering::SeqCst);
+    }
+
+    pub fn rules_lookup_fails() -> bool {
+        RULES_LOOKUP_FAILS.load(Ordering::SeqCst)
+    }
+}
